@@ -323,13 +323,37 @@ func (c *memSearchClient) Search(ctx context.Context, in *pb.SearchRequest, opts
 	return st, nil
 }
 
+// searchRec records what every node answered to SearchPartitions while a harness-driven Dataset.Search runs
+// (the actual worker messages of the fan-in; re-running the searches would not reproduce them exactly).
+var searchRec struct {
+	mu   sync.Mutex
+	on   bool
+	msgs []recMsg
+}
+
+type recMsg struct {
+	node  uint64
+	err   bool
+	items []*pb.SearchResultItem
+}
+
 func (c *memSearchClient) SearchPartitions(ctx context.Context, in *pb.SearchPartitionsRequest, opts ...grpc.CallOption) (pb.Search_SearchPartitionsClient, error) {
+	rec := func(err bool, items []*pb.SearchResultItem) {
+		searchRec.mu.Lock()
+		if searchRec.on {
+			searchRec.msgs = append(searchRec.msgs, recMsg{c.to.id, err, items})
+		}
+		searchRec.mu.Unlock()
+	}
 	if err := c.to.check("SearchPartitions"); err != nil {
+		rec(true, nil)
 		return nil, err
 	}
 	st := &memStream{ctx: ctx}
 	if err := services.NewSearchServer(c.to.dm).SearchPartitions(in, st); err != nil {
+		rec(true, nil)
 		return nil, err
 	}
+	rec(false, append([]*pb.SearchResultItem(nil), st.items...))
 	return st, nil
 }
